@@ -1032,10 +1032,10 @@ def check_resamplers(ctx, cases, obs, texts):
                                     "target is %r (error %.3g of the field's range; (t, s) = (%r, %r)) [%s; rounding bound of the documented formulas %.3g of the range]" % (
                                         tpl, i, x, y, P, vals["affine"], want, err, t, s, cls or "not explained by rounding", bnd / rng_aff), dict(rp, pixel=i))
         ctx.case(("resample", json.dumps(c, sort_keys=True)), nontrivial=produced > 0,
-                 sample=smp(ctx, "resample", {"resample_" + tpl: {"source": c["source"], "target": c["target"], "radius": c["radius"],
+                 sample=smp(ctx, "resample_" + tpl, {"resample_" + tpl: {"source": c["source"], "target": c["target"], "radius": c["radius"],
                                                                      "neighbours": c["neighbours"]},
                                               "pixels_with_value": produced, "surrounded": sur_n, "first_values_affine": res["affine"][:4],
-                                              "t_s_first": [o["t"][:2], o["s"][:2]]}, 4)
+                                              "t_s_first": [o["t"][:2], o["s"][:2]]}, 1)
                  if tpl in ("cross_proj", "swath_jitter", "invalid_target", "degree_fan", "integer_data") else None)
         ctx.count("resample:" + tpl)
         # 3-D data = the three 2-D results; one-call API = two-step API
@@ -1113,7 +1113,7 @@ def check_xarray(ctx, rcases, robs, xcases, xobs, envs):
                 continue
             ref = robs[ci].get("np")
             for chunks, fields in o["xr"].items():
-                ctx.case(("xr", env, chunks, json.dumps(c, sort_keys=True)), sample=smp(ctx, "xarray", {"xarray_chunks": chunks, "PYTROLL_CHUNK_SIZE": env, "template": c["template"]}, 2) if env != "default" else None)
+                ctx.case(("xr", env, chunks, json.dumps(c, sort_keys=True)), sample=smp(ctx, "xarray", {"xarray_chunks": chunks, "PYTROLL_CHUNK_SIZE": env, "template": c["template"]}, 1) if env != "default" else None)
                 ctx.count("xarray:chunk_size=%s" % env)
                 rpx = {"oracle": "xarray", "case": c, "env": env, "chunks": chunks}
                 # every band of the 3-D result is the 2-D result of that band (also on targets with invalid lon/lat pixels)
